@@ -12,9 +12,6 @@ import (
 // DAIncluderLoop is responsible for advancing the DAIncludedHeight by checking if blocks after the current height
 // have both their header and data marked as DA-included in the caches. If so, it calls setDAIncludedHeight.
 func (m *Manager) DAIncluderLoop(ctx context.Context, errCh chan<- error) {
-	// blocks whose blobs were accepted or seen before the last stop (their marks come back with the caches) are checked
-	// right away: nothing else would ask for them before the next submission or DA sighting
-	m.sendNonBlockingSignalToDAIncluderCh()
 	for {
 		select {
 		case <-ctx.Done():
